@@ -192,6 +192,41 @@ def default_run_shard(mod, spec, ctx):
     ctx.end()
 
 
+def run_repo_tests(spec, ctx):
+    """shard kind 'repotests': the repository's own test suite under the monitors (vf/pytest_plugin.py);
+    problems whose signature belongs to this property become violations, the others are counted"""
+    import subprocess
+    import tempfile
+    out = tempfile.mktemp(prefix="plugin", suffix=".json", dir=os.environ.get("TMPDIR"))
+    env = dict(os.environ)
+    env["VF_PLUGIN_OUT"] = out
+    case = {"repository_tests": True}
+    ctx.begin(case)
+    r = subprocess.run([sys.executable, "-m", "pytest", "-q", "-p", "no:cacheprovider", "-p", "vf.pytest_plugin",
+                        os.path.join(spec["repo"], "tests")], env=env, cwd=spec["repo"], stdout=subprocess.PIPE,
+                       stderr=subprocess.STDOUT, text=True, timeout=1800)
+    ctx.end()
+    if not os.path.exists(out):
+        ctx.error("repository tests under monitors produced no report: " + r.stdout[-800:])
+        return
+    with open(out) as f:
+        rep = json.load(f)
+    os.remove(out)
+    ctx.count("repotests:algorithm_calls", rep.get("algorithm_calls", 0))
+    ctx.count("repotests:kemeny_contract_evaluations", rep.get("kemeny_contract", 0))
+    ctx.count("repotests:cost_tables_judged", rep.get("cost_tables", 0))
+    ctx.count("repotests:invariant_evaluations", rep.get("invariants", 0))
+    ctx.count("repotests:pytest_exit_status", rep.get("exitstatus", 0))
+    for pr in rep.get("problems", []):
+        if pr["signature"].startswith(spec["prop"] + "/"):
+            ctx.violation(pr["signature"] + ":in-repository-tests", "while running the repository's own tests: "
+                          + pr["what"], pr.get("case") or case, observed=pr.get("observed"), expected=pr.get("expected"))
+        else:
+            ctx.count("repotests:problems_of_other_properties")
+    ctx.nontrivial(case)
+    ctx.sample({"repository_tests_under_monitors": {k: v for k, v in rep.items() if k != "problems"}}, key="repotests")
+
+
 def main(argv):
     specfile, outfile = argv[1], argv[2]
     with open(specfile) as f:
@@ -204,7 +239,9 @@ def main(argv):
         ctx.error("mode B: the bounds-check canary kernel did not raise IndexError")
     if hasattr(mod, "setup"):
         mod.setup(ctx)
-    if hasattr(mod, "run_shard"):
+    if spec.get("kind") == "repotests":
+        run_repo_tests(spec, ctx)
+    elif hasattr(mod, "run_shard"):
         mod.run_shard(spec, ctx)
         ctx.end()
     else:
